@@ -719,6 +719,22 @@ func (v Value) evaluateBreakContinue(labels []string) resultKind {
 	return resultReturn
 }
 
+// carried returns the statement value a break or continue completion carries (ES5 8.9).
+func (v Value) carried() Value {
+	return v.value.(result).value
+}
+
+// carrying returns the break or continue completion v carrying value, unless it
+// already carries one; a return completion is left alone.
+func (v Value) carrying(value Value) Value {
+	completion := v.value.(result)
+	if completion.kind == resultReturn || !completion.value.isEmpty() || value.isEmpty() {
+		return v
+	}
+	completion.value = value
+	return toValue(completion)
+}
+
 func (v Value) evaluateBreak(labels []string) resultKind {
 	result := v.value.(result)
 	if result.kind == resultBreak {
